@@ -53,6 +53,10 @@ func runC15(r *Run) {
 	r.DrawYields()
 	nWriters := t.Draw(3)
 	unsolicited := t.Pct(35)
+	// stallFirst: for the first 2.5 s the peer does not read and the pipe is full, so
+	// the first round of Ping calls is stuck writing while pongs that guess their
+	// payloads arrive; a second round of pings after the stall gets no pongs at all
+	stallFirst := t.Pct(20)
 	inMsgs := 0
 	if !useCloseRead {
 		inMsgs = t.Draw(3)
@@ -81,16 +85,51 @@ func runC15(r *Run) {
 	r.D("unsolicited", unsolicited)
 	r.Nontrivial = true
 
+	stalled := false
+	if stallFirst {
+		unsolicited = true
+		stalled = true
+		sig += ",stall-first"
+		rc.Lib.Out().Cap = 0
+		rc.Lib.Out().HardCap = true
+		time.AfterFunc(2500*time.Millisecond, func() {
+			stalled = false
+			rc.Lib.Out().Cap = 4096
+			r.S.Kick()
+		})
+		r.S.Count("fault.peer-stall-at-start")
+	}
+	if stallFirst {
+		r.S.Go("blocker", func() {
+			c.Write(bg, websocket.MessageBinary, Payload{Kind: 2, Len: 3000, Seed: 77}.Bytes())
+		})
+	}
 	// ---- library side
-	calls := make([]*pingCall, nPing)
+	nCalls := nPing
+	if stallFirst {
+		nCalls = 2 * nPing
+	}
+	calls := make([]*pingCall, nCalls)
 	live := 0
 	for i := range calls {
 		pc := &pingCall{name: fmt.Sprintf("ping%d", i), timeout: []time.Duration{30 * time.Second, time.Second, 3 * time.Second}[t.Draw(3)]}
+		if stallFirst {
+			pc.timeout = time.Second
+		}
+		second := i >= nPing
 		calls[i] = pc
 		live++
 		r.S.Go(pc.name, func() {
 			defer func() { live-- }()
 			r.S.Park("a." + pc.name)
+			if stallFirst && !second {
+				// queue behind the data write that is stuck in the transport (a context
+				// that ends while waiting for the frame lock does not close the connection)
+				r.S.ParkE("a."+pc.name+".behind", func() bool { return rc.Lib.InWriteLocked() || rc.Lib.ClosedLocked() }, nil)
+			}
+			if second {
+				r.S.Sleep(3 * time.Second) // after the stall and after the first round has failed
+			}
 			ctx, cancel := context.WithTimeout(bg, pc.timeout)
 			defer cancel()
 			pc.invoke, pc.invokeAt = r.S.Step(), r.S.Now()
@@ -187,7 +226,11 @@ func runC15(r *Run) {
 	r.S.Go("peer-wr", func() {
 		if unsolicited {
 			// guesses of the library's ping payloads, before any ping was sent
-			for _, p := range []string{"1", "2", "", "x"} {
+			guesses := []string{"1", "2", "", "x"}
+			if stallFirst {
+				guesses = []string{"1", "2", "3", "4", "5", "6", "1", "2"}
+			}
+			for _, p := range guesses {
 				sendPong([]byte(p))
 			}
 		}
@@ -205,6 +248,9 @@ func runC15(r *Run) {
 	})
 	peerDone := false
 	_ = peerDone
+	if stallFirst {
+		peer.Hold = func() bool { return stalled }
+	}
 	r.S.Go("peer-rd", func() {
 		defer func() { peerDone = true }()
 		seen := 0
@@ -273,6 +319,11 @@ func runC15(r *Run) {
 				return
 			}
 			if f.Opcode != wsref.OpPing {
+				continue
+			}
+			if stallFirst {
+				// nothing is answered in this mode: the first round has given up by the
+				// time the peer reads again, the second round's pongs are withheld
 				continue
 			}
 			pending = append(pending, f.Payload)
